@@ -31,6 +31,7 @@ def run(F, R):
 
     # ---------------------------------------------------------------- R1 validity gate
     R.rule("C05-R1", "nothing but reading the app set happens before the `all_valid() == true` edge; the false edge only returns")
+    lib.check_as_configured(R, "C05-R1", sm.w, sm, {"policy_engine": "policy_engine", "installer": "installer"})
     av = sm.bool_edges(S, lambda n, t: "AppSetExt::all_valid" in fmt_t(t))
     true_e = [(a, b) for (a, b, tr) in av if tr]
     false_e = [(a, b) for (a, b, tr) in av if not tr]
@@ -107,7 +108,7 @@ def run(F, R):
             else:
                 R.check("C05-R3", "params:" + key, kinds == {"decision"}, "params <- payload of the positive check decision",
                         "request parameters of this builder do not come from the policy decision: %s" % sorted(kinds), nd.loc())
-    _builder_field_flow(R, c)
+    _builder_field_flow(R, c, sm.w)
 
     # ---------------------------------------------------------------- R4 install gate
     R.rule("C05-R4", "perform_install is dominated by the Ok edge of update_can_start on the same plan; deferral/denial reach no installer action")
@@ -297,7 +298,7 @@ def _errors_gate(R, sm, Sc, needed_sites):
                 "reboot_needed / Needed(_) reachable without the collected installer errors being empty: %s" % [Sc.nodes[x].loc() for x in sorted(bad)])
 
 
-def _builder_field_flow(R, c):
+def _builder_field_flow(R, c, W=None):
     RB = "request_builder::RequestBuilder"
     new = lib.one(R, "C05-R3", c, "RequestBuilder::new", item="new", impl_self=RB)
     if new:
@@ -382,6 +383,12 @@ def _builder_field_flow(R, c):
                     t = auc._trace_rv(s_["r"], None, 0)
                     found = dict(zip(t[4], [lib.apath(x) for x in t[3]]))
         exp = {"disabled": "param1.params.disable_updates", "offer_update_if_same_version": "param1.params.offer_update_if_same_version"}
+        # .. and they go on the wire under the protocol's attribute names, each left out only when false
+        from .. import schema as _schema
+        us = _schema.ser_schema(W, c, "protocol::request::UpdateCheck")
+        got_u = [[it.get("key"), it.get("skip_if"), it.get("field")] for it in (us or {}).get("items", [])]
+        R.check("C05-R3", "updatecheck-wire-names", got_u == [["updatedisabled", "false", "disabled"], ["sameversionupdate", "false", "offer_update_if_same_version"]], str(got_u),
+                "the updatecheck object serialises as %s: the policy's disable-updates / same-version parameters do not reach the server under the attributes it reads" % got_u)
         R.check("C05-R3", "updatecheck-flags", found == exp, "updatedisabled/sameversionupdate <- params: %s" % found, "update-check flags do not come from params: %s" % found)
 
 
